@@ -73,9 +73,14 @@ def replay_dump(run, cfg):
     m = re.search(r'<<\s*"WORLD"', r.out)
     world = tlaval.parse(r.out[m.start():])[1]
     n = 0
+    seen = 0
+    stride = 1 if run.quick else 2          # thorough: 810k histories of length <= 4 are enumerated by TLC, every 2nd replayed
     for st in tlaval.parse_dump(path + ".dump"):
         hist = st["hist"]
         if not hist:
+            continue
+        seen += 1
+        if len(hist) == 4 and seen % stride:
             continue
         obs, cache = replay_history(world, hist)
         n += 1
